@@ -483,31 +483,39 @@ def csv_route(rng, out, n):
         text = "".join(";".join(r) + "\n" for r in rows)
         if rng.random() < 0.3 and text.endswith("\n"):
             text = text[:-1]                      # no final newline
-        # the rows that text denotes (a line without cells is one empty cell)
-        seen = [line.split(";") for line in text.split("\n")]
-        if text.endswith("\n") or text == "":
-            seen = seen[:-1]
-        want = ref_segment(seen)
-        case = {"csv_text": text}
         out.evaluations += 1
         out.count("csv_route")
-        try:
-            with warnings.catch_warnings():
-                warnings.simplefilter("ignore")
-                got = list(pdtable.read_csv(io.StringIO(text), sep=";", to="cellgrid"))
-        except Exception as e:  # noqa: BLE001
-            out.fail("read_csv(to='cellgrid') raised on a text of rows", case, repr(e)[:200], None,
-                     key="csv_route_raised:" + type(e).__name__)
-            continue
-        if [bt.name for bt, _ in got] != [b["ty"] for b in want]:
-            out.fail("read_csv does not deliver the blocks of the segmentation of its rows", case,
-                     [bt.name for bt, _ in got], [b["ty"] for b in want], key="csv_route:types")
-            continue
-        tabs_got = [[list(r) for r in b] for bt, b in got if bt.name == "TABLE"]
-        tabs_want = [b["rows"] for b in want if b["ty"] == "TABLE"]
-        if tabs_got != tabs_want:
-            out.fail("a TABLE block read through read_csv is not exactly its rows", case, tabs_got, tabs_want,
-                     key="csv_route:table_rows")
+        csv_case(text, out)
+
+
+def csv_case(text, out):
+    """one text through read_csv(to='cellgrid') against the segmentation of the rows it denotes"""
+    import io
+    import warnings
+    import pdtable
+    # the rows that text denotes (a line without cells is one empty cell)
+    seen = [line.split(";") for line in text.split("\n")]
+    if text.endswith("\n") or text == "":
+        seen = seen[:-1]
+    want = ref_segment(seen)
+    case = {"csv_text": text}
+    try:
+        with warnings.catch_warnings():
+            warnings.simplefilter("ignore")
+            got = list(pdtable.read_csv(io.StringIO(text), sep=";", to="cellgrid"))
+    except Exception as e:  # noqa: BLE001
+        out.fail("read_csv(to='cellgrid') raised on a text of rows", case, repr(e)[:200], None,
+                 key="csv_route_raised:" + type(e).__name__)
+        return
+    if [bt.name for bt, _ in got] != [b["ty"] for b in want]:
+        out.fail("read_csv does not deliver the blocks of the segmentation of its rows", case,
+                 [bt.name for bt, _ in got], [b["ty"] for b in want], key="csv_route:types")
+        return
+    tabs_got = [[list(r) for r in b] for bt, b in got if bt.name == "TABLE"]
+    tabs_want = [b["rows"] for b in want if b["ty"] == "TABLE"]
+    if tabs_got != tabs_want:
+        out.fail("a TABLE block read through read_csv is not exactly its rows", case, tabs_got, tabs_want,
+                 key="csv_route:table_rows")
 
 
 def excel_route(rng, out, n):
@@ -604,6 +612,10 @@ def _rows_of(inp):
 
 def replay(rep):
     inp = rep.get("input") or {}
+    if "csv_text" in inp:
+        out = Outcome()
+        csv_case(inp["csv_text"], out)
+        return (False, out.failures[0]["what"]) if out.failures else (True, "property holds on this input")
     rows = _rows_of(inp)
     if rows is None:
         return False, "replay file has no input (no-failing-input-found): " + str(rep.get("broken"))[:300]
@@ -626,13 +638,19 @@ def replay(rep):
 
 def shrink(inp, fails, budget_s):
     """fewer rows, then fewer cells per row, with the same verdict"""
+    if "csv_text" in inp or "excel_rows" in inp:
+        return None
     rows = _rows_of(inp)
     if rows is None:
         return None
     keep = {k: v for k, v in inp.items() if k == "cut"}
     jr = grid_to_json(rows)
+    import time
+    t0 = time.time()
     jr = common.ddmin(jr, lambda rs: fails(dict(keep, rows=rs)), budget_s * 0.7)
     for k in range(len(jr)):
+        if time.time() - t0 > budget_s or len(jr) > 400:
+            break                # cells are trimmed only for inputs that ended up small, and within the budget
         while len(jr[k]) > 1 and fails(dict(keep, rows=jr[:k] + [jr[k][:-1]] + jr[k + 1:])):
             jr[k] = jr[k][:-1]
     return dict(keep, rows=jr)
